@@ -5,21 +5,21 @@ import HexProofs.Manager2.TwinSched
 import HexProofs.Manager2.TwinWindow
 import HexProofs.Footprint.Schedule
 import HexProofs.Manager2.TwinTrees
+import HexProofs.Manager2.TwinTreesTf
 import HexProofs.Framework.Gen.AllX
 import HexProofs.Lib.IntInst
 import HexProps.C03
 /-
 C15 – Lifespan trimming keeps exactly the window (first clause; every float carrier `F`):
 `schedule` (no timeframe) and `schedule_tf` (collapsing timeframe).
-The second clause (readings on retained candles equal those of the untrimmed run) rests on the
-per-indicator SHIFT invariance.  Proved here for the purely recursive LEAF kinds (HLA, TR, OBV,
-Counter; EMA and RMA once seeded): `readings_unchanged_by_trimming_reading` (one reading, through
-the engine's dispatch) and `readings_unchanged_by_trimming_append_*` (one whole `Indicator.append`
-on a trimmed indicator next to its untrimmed twin: resume index, skip test, loop, writes); plus
-the single-reading shift lemmas of the windowed start-up / look-back kinds SMA, EMA, ROC.  Over a
-WHOLE schedule (construction, `calculate()`, any appends): `C15b_partial` (HLA, TR, OBV, Counter)
-and `readings_unchanged_by_trimming_schedule_ema/_rma` (seeded at construction).  The schedule-level
-statement for all covered leaf kinds is `C15b_FULL` (see there for what is missing).
+The second clause (readings on retained candles equal those of the untrimmed run): PROVED for ALL 27 classes over
+whole schedules (construction, `calculate()`, any appends) whenever each popping append retains the class's look-back –
+leaf classes `C15b_leaf` / `C15b_FULL_holds` (from the bounded-footprint theorem), every composite
+`C15b_trees_FULL_holds` / `C15b_trees_look` (drop law of the whole engine, look-back `treeLook` = max over the tree's nodes,
+helper and `_data` series included), and the same on a COLLAPSING TIMEFRAME without / with gap filling `C15b_trees_tf` /
+`C15b_trees_tf_fill` (retention counted in closed buckets; `C15b_trees_tf_naive_false`: counting the still-forming bucket
+as retained history is not enough – replayed on the library).  The older per-kind forms (`readings_unchanged_by_trimming_*`,
+`C15b_partial`, EMA / RMA seeded at construction) are kept.  Open: members of a Hexital, Heikin-Ashi managers.
 -/
 namespace Hex.C15
 open Hex Hex.C03
@@ -418,9 +418,9 @@ theorem C15b_leaf_total (k : Kind F) (name : String) (hc : Covered name k) : ∃
 /-- **The second clause for every shipped class** – composite indicators included (their helper series must be
 retained as well: the look-back of a tree is the maximum over its nodes, and the resume logic of every helper
 must find its predecessor).  PROVED below (`C15b_trees_FULL_holds`, with the explicit look-back
-`Hex.treeLook` in `C15b_trees_look`).  Still open for the second clause: members of a Hexital and the
-combination with a collapsing timeframe (first clause: `schedule_tf`) – C15b oracle (untrimmed twin, tightest
-admissible window) and the tie only. -/
+`Hex.treeLook` in `C15b_trees_look`).  The combination with a collapsing timeframe, with or without gap filling, is PROVED as well (`C15b_trees_tf`,
+`C15b_trees_tf_fill` at the end of this file: retention counted in CLOSED buckets).  Still open for the second clause:
+members of a Hexital, Heikin-Ashi managers – C15b oracle (untrimmed twin, tightest admissible window) and the tie only. -/
 def C15b_trees_FULL : Prop :=
   ∀ (k : Kind F) (name : String) (round : Nat), CoveredTreeX name k →
     ∃ L : Nat, ∀ (life : Int) (init : List (Candle F)) (chunks : List (List (Candle F))),
@@ -524,5 +524,63 @@ example : ∃ d, candlesOf (runIndicator (mkTop (F := Int) .obv "OBV" 4) (cfgLif
     = (candlesOf (runIndicator (mkTop (F := Int) .obv "OBV" 4) {} demoRaw [demoNew, []])).map (·.drop d) :=
   C15b_partial .obv "OBV" 4 .obv .obv 120 demoRaw [demoNew, []] (by decide) rfl
     (Or.inr ⟨by decide, (demoRaw ++ demoNew).drop 2, rfl, Or.inr (by decide), Or.inl ⟨rfl, trivial⟩⟩)
+
+/-- **C15, second clause, on a collapsing timeframe – every shipped class** (`CoveredTreeX`), every timeframe
+`tf > 0`, every lifespan, every construction prefix and append schedule of raw reading-free candles: if the trim
+pops nothing at construction and at every non-empty append either nothing has been popped so far or
+`treeLook k name round` CLOSED buckets – buckets from before the append that the append does not re-open – are
+retained (`Hex.RetainsBuckets`, a condition on the resampled stream only), then whenever the run with
+`{timeframe, candles_lifespan}` and its untrimmed twin `{timeframe}` both return, the trimmed indicator holds the
+twin's candles minus the popped leading buckets (readings, helper series, `_data`; the forming bucket included).
+(HexProofs/Manager2/TwinTreesTf*.lean) -/
+theorem C15b_trees_tf (k : Kind F) (name : String) (round : Nat) (hc : CoveredTreeX name k)
+    (tf : Int) (htf : 0 < tf) (life : Int) (init : List (Candle F)) (chunks : List (List (Candle F)))
+    (hraw : RawStream (init ++ chunks.flatten)) (hp : ∀ c ∈ init ++ chunks.flatten, Plain c)
+    (hinit : trimCandles (some life) (resample tf init) = .ok (resample tf init))
+    (hret : RetainsBuckets (treeLook k name round) tf life init 0 chunks) (a b : List (Candle F))
+    (ha : candlesOf (runIndicator (mkTop k name round) { tf := some tf, lifespan := some life } init chunks) = .ok a)
+    (hb : candlesOf (runIndicator (mkTop k name round) { tf := some tf } init chunks) = .ok b) :
+    ∃ d, a = b.drop d :=
+  Hex.C15b_trees_tf k name round hc tf htf life init chunks ⟨hraw.stamped, hraw.plain, hraw.sorted, hp⟩ hinit hret
+    a b ha hb
+
+/-- … and with `timeframe_fill = True` (tasks `collapse → fill → trim`), over the filled bucket list `fillSpec tf` -/
+theorem C15b_trees_tf_fill (k : Kind F) (name : String) (round : Nat) (hc : CoveredTreeX name k)
+    (tf : Int) (htf : 0 < tf) (life : Int) (init : List (Candle F)) (chunks : List (List (Candle F)))
+    (hraw : RawStream (init ++ chunks.flatten)) (hp : ∀ c ∈ init ++ chunks.flatten, Plain c)
+    (hinit : trimCandles (some life) (fillSpec tf init) = .ok (fillSpec tf init))
+    (hret : RetainsFilled (treeLook k name round) tf life init 0 chunks) (a b : List (Candle F))
+    (ha : candlesOf (runIndicator (mkTop k name round) { tf := some tf, fill := true, lifespan := some life }
+            init chunks) = .ok a)
+    (hb : candlesOf (runIndicator (mkTop k name round) { tf := some tf, fill := true } init chunks) = .ok b) :
+    ∃ d, a = b.drop d :=
+  Hex.C15b_trees_tf_fill k name round hc tf htf life init chunks ⟨hraw.stamped, hraw.plain, hraw.sorted, hp⟩ hinit
+    hret a b ha hb
+
+/-- the retention hypothesis counts CLOSED buckets for a reason: counting every bucket held before the append is
+refuted by ROC 2 over `Int` (and on the library) -/
+theorem C15b_trees_tf_naive_false :
+    ¬ (∀ (k : Kind Int) (name : String) (round : Nat), CoveredTreeX name k → ∀ (tf : Int), 0 < tf →
+        ∀ (life : Int) (init : List (Candle Int)) (chunks : List (List (Candle Int))),
+        RawTf (init ++ chunks.flatten) → trimCandles (some life) (resample tf init) = .ok (resample tf init) →
+        RetainsBucketsNaive (treeLook k name round) tf life init 0 chunks → ∀ a b,
+        candlesOf (runIndicator (mkTop k name round) (cfgTfLife tf life) init chunks) = .ok a →
+        candlesOf (runIndicator (mkTop k name round) (cfgTf tf) init chunks) = .ok b → ∃ d, a = b.drop d) :=
+  Hex.C15b_trees_tf_naive_false
+
+/-- non-vacuity: ATR 3 on one-minute candles collapsed to 120 s, lifespan 360 s, three buckets popped over five
+non-empty appends (one merge-only, two merge-and-open) – hypotheses hold, both runs return, trimmed = twin minus 3 -/
+example (a b : List (Candle Int)) (ha : runTtf (.atr 3) "ATR_3" = .ok a) (hb : runUtf (.atr 3) "ATR_3" = .ok b) :
+    ∃ d, a = b.drop d :=
+  C15b_trees_tf (.atr 3) "ATR_3" 4 atrDemoOK 120 (by decide) 360 tfInit tfChunks
+    ⟨tfDemo_raw.stamped, tfDemo_raw.cleanNone, tfDemo_raw.sorted⟩ tfDemo_raw.plain tfDemo_init
+    (by rw [atrDemo_look]; exact tfDemo_retains) a b ha hb
+set_option synthInstance.maxSize 2000 in
+example : (runTtf (.atr 3) "ATR_3").toOption.map (·.map view)
+    = (runUtf (.atr 3) "ATR_3").toOption.map (fun b => (b.drop 3).map view) := by decide +kernel
+example : ((runTtf (.atr 3) "ATR_3").toOption.map (·.map view)).isSome = true := by decide +kernel
+
+#print axioms C15b_trees_tf
+#print axioms C15b_trees_tf_fill
 
 end Hex.C15
